@@ -248,6 +248,67 @@ Ltac vsc := repeat (first [ assumption
                           | match goal with |- vle _ (match ?x with _ => _ end) => destruct x eqn:? end
                           | vs | vkeep | vmsg | eapply V_conn_qos; [eassumption|] ]).
 
+(* ------------------------------------------------------------------ *)
+(* channel.close drops the message being assembled (ch_cur := None) - the one thing it does that the view [vle] sees.
+   It is split into the part the view does not see ([close_pre]) and the drop; [vld P s0 s]: s is reached from s0 by
+   steps the view does not see and drops of the current message on channels (c,h) with P c h. *)
+Lemma aset_aset_N {V} k (v v' : V) l : aset N.eqb k v' (aset N.eqb k v l) = aset N.eqb k v' l.
+Proof.
+  induction l as [|[k0 v0] r IH]; cbn; [rewrite N.eqb_refl; reflexivity|].
+  destruct (k =? k0) eqn:E; cbn; [rewrite N.eqb_refl; reflexivity|rewrite E; f_equal; exact IH].
+Qed.
+Lemma set_chan_set_chan s c h a b : set_chan (set_chan s c h a) c h b = set_chan s c h b.
+Proof.
+  unfold set_chan. destruct (get_conn s c) as [cn|] eqn:Ec; [|rewrite Ec; reflexivity].
+  unfold get_conn in *. cbn. rewrite (alookup_aset N.eqb Neqb_spec), N.eqb_refl. cbn. rewrite !aset_aset_N. reflexivity.
+Qed.
+Lemma upd_chan_upd_chan s c h f g : upd_chan (upd_chan s c h f) c h g = upd_chan s c h (fun ch => g (f ch)).
+Proof.
+  unfold upd_chan. destruct (get_chan s c h) as [ch|] eqn:E; [|rewrite E; reflexivity].
+  rewrite get_chan_set_chan. pose proof (get_chan_conn _ _ _ _ E) as Hc. destruct (get_conn s c); [|congruence].
+  rewrite !N.eqb_refl. cbn [andb]. apply set_chan_set_chan.
+Qed.
+
+Definition close_pre (cfg : config) (s : state) (c h : N) : state :=
+  match get_chan s c h with
+  | None => s
+  | Some ch =>
+    let s := fold_left (fun s cm => consumer_stop s c h (c_tag cm)) (ch_consumers ch) s in
+    let s := upd_chan s c h (fun ch => ch <| ch_consumers := [] |>) in
+    let s := if 0 <? h then fst (handle_reject cfg s c h 0 true true 60 120) else s in
+    upd_chan s c h (fun ch => ch <| ch_status := ChClosed |>)
+  end.
+Lemma channel_close_split cfg s c h :
+  channel_close cfg s c h = upd_chan (close_pre cfg s c h) c h (fun ch => ch <| ch_cur := None |>).
+Proof.
+  unfold channel_close, close_pre. destruct (get_chan s c h) as [ch|] eqn:E; [|unfold upd_chan; rewrite E; reflexivity].
+  cbv zeta. rewrite upd_chan_upd_chan. reflexivity.
+Qed.
+
+Inductive vld (P : N -> N -> Prop) (s0 : state) : state -> Prop :=
+| vld_vle s : vle s0 s -> vld P s0 s
+| vld_drop s c h ch : vld P s0 s -> P c h -> get_chan s c h = Some ch -> vld P s0 (set_chan s c h (ch <| ch_cur := None |>))
+| vld_step s s' : vld P s0 s -> vle s s' -> vld P s0 s'.
+Lemma vld_refl P s : vld P s s. Proof. apply vld_vle, vle_refl. Qed.
+Lemma vld_trans P s0 s1 s2 : vld P s0 s1 -> vld P s1 s2 -> vld P s0 s2.
+Proof. intros H1 H2. induction H2; [eapply vld_step; eauto|eapply vld_drop; eauto|eapply vld_step; eauto]. Qed.
+Lemma vld_weaken (P Q : N -> N -> Prop) s0 s : (forall c h, P c h -> Q c h) -> vld P s0 s -> vld Q s0 s.
+Proof. intros Hw H. induction H; [apply vld_vle; auto|eapply vld_drop; eauto|eapply vld_step; eauto]. Qed.
+Lemma vle_none s0 s c h : vle s0 s -> (get_chan s0 c h = None <-> get_chan s c h = None).
+Proof.
+  intros H. pose proof (v_chan _ _ H c h) as C. unfold chan_le in C.
+  destruct (get_chan s0 c h), (get_chan s c h); try tauto. split; discriminate.
+Qed.
+Lemma vld_none P s0 s c h : vld P s0 s -> (get_chan s0 c h = None <-> get_chan s c h = None).
+Proof.
+  intros H. induction H as [s Hv|s c1 h1 ch1 H IH Hp Hg|s s' H IH Hv].
+  - apply vle_none; exact Hv.
+  - rewrite IH. rewrite get_chan_set_chan. pose proof (get_chan_conn _ _ _ _ Hg) as Hc. destruct (get_conn s c1); [|congruence].
+    destruct ((c =? c1) && (h =? h1)) eqn:Eb; [|tauto].
+    apply andb_prop in Eb. destruct Eb as [E1 E2]. apply N.eqb_eq in E1, E2. subst. rewrite Hg. split; discriminate.
+  - rewrite IH. apply vle_none; exact Hv.
+Qed.
+
 Section Frame.
 Variable s0 : state.
 Notation I := (vle s0).
@@ -316,9 +377,9 @@ Proof.
   - destruct (find _ _); cbn [fst]; auto. apply V_dec_qos. apply V_chan_ackmsg. apply V_del_unacked; auto.
 Qed.
 
-Lemma V_channel_close cfg s c h : I s -> I (channel_close cfg s c h).
+Lemma V_close_pre cfg s c h : I s -> I (close_pre cfg s c h).
 Proof.
-  intros H. unfold channel_close. destruct (get_chan s c h) as [ch|] eqn:Ech; auto.
+  intros H. unfold close_pre. destruct (get_chan s c h) as [ch|] eqn:Ech; auto.
   vkeep.
   assert (H2 : I (upd_chan (fold_left (fun s cm => consumer_stop s c h (c_tag cm)) (ch_consumers ch) s) c h
                      (fun ch => ch <| ch_consumers := [] |>))).
@@ -1419,13 +1480,22 @@ Ltac vset Hch := eapply V_set_chan; [exact Hch|reflexivity|first [apply st_moves
 Definition confirm_method (m : meth) : bool :=
   match m with MChannelOpen | MPublish _ _ _ _ | MConfirmSelect _ => true | _ => false end.
 
-Lemma V_handle_method cfg fx s c h m : confirm_method m = false -> vle s (fst (fst (handle_method cfg fx s c h m))).
+Definition close_method (m : meth) : bool := match m with MChannelClose | MChannelCloseOk => true | _ => false end.
+
+(* channel.close on (c,h): steps the view does not see, then the message being assembled on (c,h) is dropped *)
+Lemma D_channel_close cfg s c h : vld (fun c' h' => c' = c /\ h' = h) s (channel_close cfg s c h).
 Proof.
-  intros Hcm. pose proof (vle_refl s) as H. unfold handle_method.
+  rewrite channel_close_split. pose proof (V_close_pre s cfg s c h (vle_refl s)) as H1.
+  unfold upd_chan. destruct (get_chan (close_pre cfg s c h) c h) as [ch|] eqn:E; [|apply vld_vle; exact H1].
+  apply vld_drop; [apply vld_vle; exact H1|split; reflexivity|exact E].
+Qed.
+
+Lemma V_handle_method cfg fx s c h m :
+  confirm_method m = false -> close_method m = false -> vle s (fst (fst (handle_method cfg fx s c h m))).
+Proof.
+  intros Hcm Hclm. pose proof (vle_refl s) as H. unfold handle_method.
   destruct (get_chan s c h) as [ch|] eqn:Hch; [|exact H].
   destruct m; try discriminate; unfold ok, refuse.
-  - cbn [fst]. apply V_channel_close; auto.
-  - cbn [fst]. destruct (fx_closeok_releases fx); [apply V_channel_close; auto|vset Hch; auto].
   - cbn [fst]. destruct (Bool.eqb _ _); auto. destruct a; (vset Hch; auto).
   - destruct (extype_of type); [|exact H].
     repeat match goal with |- context [if ?b then _ else _] => destruct b end; cbn [fst]; auto.
@@ -1484,6 +1554,17 @@ Proof.
   - destruct within; [cbn [fst]; apply V_set_stage; exact H|exact H].
   - destruct vhost_ok; [cbn [fst]; apply V_set_stage; exact H|exact H].
 Qed.
+
+Lemma D_handle_method cfg fx s c h m :
+  confirm_method m = false -> vld (fun c' h' => c' = c /\ h' = h) s (fst (fst (handle_method cfg fx s c h m))).
+Proof.
+  intros Hcm. destruct (close_method m) eqn:Hclm; [|apply vld_vle; apply V_handle_method; auto].
+  unfold handle_method. destruct (get_chan s c h) as [ch|] eqn:Hch; [|apply vld_refl].
+  destruct m; try discriminate; unfold ok; cbn [fst].
+  - apply D_channel_close.
+  - destruct (fx_closeok_releases fx); [apply D_channel_close|]. apply vld_vle. pose proof (vle_refl s) as H. vset Hch; auto.
+Qed.
+
 
 (* ------------------------------------------------------------------ *)
 (* channel.open on a closed channel number: a new instance *)
@@ -1621,6 +1702,31 @@ Proof.
   intros Ha Hm H2. pose proof (TR0_mid _ _ Ha Hm) as H1. eapply TR0_seq; [|exact H1|apply H2; exact (proj1 H1)].
   intros c h Hn. left. apply (mid_none _ _ c h Hm). exact Hn.
 Qed.
+Lemma drop_tr s c h ch : Aux s -> get_chan s c h = Some ch -> TR0 s (set_chan s c h (ch <| ch_cur := None |>)).
+Proof.
+  intros Ha Hgc. set (ch2 := ch <| ch_cur := None |>).
+  split; [apply (Aux_set_chan s c h ch); auto; apply N.le_refl|].
+  intros c' h'. unfold trans_ch. cbn [acks_of flat_map app].
+  destruct (set_chan_frame s c h ch2) as (F1 & F2 & F3 & _).
+  rewrite get_chan_set_chan. pose proof (get_chan_conn _ _ _ _ Hgc) as Hcn. destruct (get_conn s c) as [cn|] eqn:Ecn; [|congruence].
+  destruct ((c' =? c) && (h' =? h)) eqn:Eb.
+  - apply andb_prop in Eb. destruct Eb as [E1 E2]. apply N.eqb_eq in E1, E2. subst c' h'. rewrite Hgc.
+    left. repeat split; [apply N.le_refl|]. intros t. cbn [ch_ctag set ch2]. rewrite bump_refl, !where_ch_nc. cbn [ch_cur set cur_part ch2].
+    rewrite (where_nc_frame s _ c h _ F1 F2 (chan_inst_set_chan s c h ch ch2 c h Hgc eq_refl)).
+    change (where_nc s c h ch2) with (where_nc s c h ch). rewrite !cnt_app, cnt_nil. lia.
+  - assert (Hsame : trans_ch s (set_chan s c h ch2) [] c' h').
+    { apply trans_ch_same; auto. rewrite get_chan_set_chan, Ecn, Eb. reflexivity. }
+    unfold trans_ch in Hsame. rewrite get_chan_set_chan, Ecn, Eb in Hsame. exact Hsame.
+Qed.
+Lemma TR0_vld P s s' : Aux s -> vld P s s' -> TR0 s s'.
+Proof.
+  intros Ha H. induction H as [s1 Hv|s1 c1 h1 ch1 H IH Hp Hg|s1 s2 H IH Hv].
+  - apply TR0_vle; auto.
+  - eapply TR0_seq; [|exact IH|apply drop_tr; [exact (proj1 IH)|exact Hg]].
+    intros c h Hn. right. rewrite get_chan_set_chan. destruct (get_conn s1 c1); auto.
+    destruct ((c =? c1) && (h =? h1)) eqn:Eb; auto. apply andb_prop in Eb. destruct Eb as [E1 E2]. apply N.eqb_eq in E1, E2. subst. congruence.
+  - eapply TR0_then_mid; [exact IH|apply vle_mid; exact Hv].
+Qed.
 Lemma trans_nb s s' evs evs' : nb evs = true -> nb evs' = true -> trans s s' evs -> trans s s' evs'.
 Proof.
   intros H1 H2 T c h. specialize (T c h). unfold trans_ch in *. rewrite (nb_acks c h evs H1) in T. rewrite (nb_acks c h evs' H2). exact T.
@@ -1628,7 +1734,7 @@ Qed.
 
 Lemma handle_method_tr cfg fx s c h m : Aux s -> TR0 s (fst (fst (handle_method cfg fx s c h m))).
 Proof.
-  intros Ha. destruct (confirm_method m) eqn:Hcm; [|apply TR0_vle; auto; apply V_handle_method; auto].
+  intros Ha. destruct (confirm_method m) eqn:Hcm; [|eapply TR0_vld; auto; apply D_handle_method; auto].
   unfold handle_method. destruct (get_chan s c h) as [ch|] eqn:Hch; [|apply TR0_refl; auto].
   destruct m; try discriminate; unfold ok, refuse.
   - (* MChannelOpen *)
@@ -1663,22 +1769,32 @@ Proof.
   destruct (vhost_delete_queue b s x false false) as [[s1 e1] r1]. cbn [fst snd] in Hd. apply IH. rewrite nb_app, H, Hd. reflexivity.
 Qed.
 
+Lemma D_close_fold cfg c l : forall s, vld (fun c' _ => c' = c) s (fold_left (fun s h => channel_close cfg s c h) l s).
+Proof.
+  induction l as [|h r IH]; intros s; cbn [fold_left]; [apply vld_refl|].
+  eapply vld_trans; [|apply IH]. eapply vld_weaken; [|apply D_channel_close]. intros c' h' [E _]. exact E.
+Qed.
+
 Lemma conn_close_tr cfg fx s c : Aux s ->
   TR0 s (fst (conn_close cfg fx s c)) /\ nb (snd (conn_close cfg fx s c)) = true /\
   (forall c' h', get_chan s c' h' = None -> get_chan (fst (conn_close cfg fx s c)) c' h' = None).
 Proof.
   intros Ha. unfold conn_close. destruct (get_conn s c) as [cn|]; [|split; [apply TR0_refl; auto|split; [reflexivity|auto]]].
   set (s1 := fold_left _ _ s).
-  assert (H1 : vle s s1) by (subst s1; apply fold_left_preserves; [intros; apply V_channel_close; auto|apply vle_refl]).
+  assert (H1 : vld (fun c' _ => c' = c) s s1) by (subst s1; apply D_close_fold).
   clearbody s1.
-  pose proof (V_delete_fold s (negb (fx_delete_checks_first fx))
-                (map fst (filter (fun kv => q_excl (snd kv) && (q_owner (snd kv) =? c)) (queues s1))) s1 [] H1) as Hd.
+  pose proof (V_delete_fold s1 (negb (fx_delete_checks_first fx))
+                (map fst (filter (fun kv => q_excl (snd kv) && (q_owner (snd kv) =? c)) (queues s1))) s1 [] (vle_refl s1)) as Hd0.
   pose proof (nb_delete_fold (negb (fx_delete_checks_first fx))
                 (map fst (filter (fun kv => q_excl (snd kv) && (q_owner (snd kv) =? c)) (queues s1))) s1 [] eq_refl) as Hn.
-  destruct (fold_left _ _ (s1, [])) as [s2 e2]. cbn [fst snd] in *. split; [|split; [rewrite nb_app, Hn; reflexivity|]].
-  - apply (TR0_mid_then s s2); auto; [apply vle_mid; exact Hd|]. intros Ha2. apply (del_conn_tr s2 c []); auto.
+  destruct (fold_left _ _ (s1, [])) as [s2 e2]. cbn [fst snd] in *.
+  assert (Hd : vld (fun c' _ => c' = c) s s2) by (eapply vld_step; eauto).
+  pose proof (TR0_vld _ s s2 Ha Hd) as T2.
+  split; [|split; [rewrite nb_app, Hn; reflexivity|]].
+  - eapply TR0_seq; [|exact T2|apply (del_conn_tr s2 c []); [exact (proj1 T2)|reflexivity]].
+    intros c' h' Hnone. left. apply (vld_none _ _ _ c' h' Hd). exact Hnone.
   - intros c' h' Hnone. rewrite get_chan_del_conn. destruct (c' =? c); auto.
-    apply (mid_none _ _ c' h' (vle_mid _ _ Hd)). exact Hnone.
+    apply (vld_none _ _ _ c' h' Hd). exact Hnone.
 Qed.
 
 Lemma apply_err_tr s0 s c h r : TR0 s0 (fst (fst r)) -> TR0 s0 (fst (apply_err s c h r)).
@@ -1976,14 +2092,16 @@ Hypothesis B_newconn : forall s c cn, Cok c -> get_conn s c = None -> cn_chans c
                                       B (s <| conns := aset N.eqb c cn (conns s) |>).
 Hypothesis B_restart : forall s, B s -> B (fst (restart cfg s)).
 
+Lemma B_vld P s0 s : vld P s0 s -> B s0 -> B s.
+Proof. intros H Hb. induction H; [eapply B_vle; eauto|eapply B_drop; eauto|eapply B_vle; eauto]. Qed.
 Lemma B_conn_close s c : B s -> B (fst (conn_close cfg fx s c)).
 Proof.
   intros Hb. unfold conn_close. destruct (get_conn s c) as [cn|]; [|exact Hb].
   set (s1 := fold_left _ _ s).
-  assert (H1 : vle s s1) by (subst s1; apply fold_left_preserves; [intros; apply V_channel_close; auto|apply vle_refl]).
+  assert (H1 : B s1) by (subst s1; eapply B_vld; [apply D_close_fold|exact Hb]).
   clearbody s1.
-  pose proof (V_delete_fold s (negb (fx_delete_checks_first fx))
-                (map fst (filter (fun kv => q_excl (snd kv) && (q_owner (snd kv) =? c)) (queues s1))) s1 [] H1) as Hd.
+  pose proof (V_delete_fold s1 (negb (fx_delete_checks_first fx))
+                (map fst (filter (fun kv => q_excl (snd kv) && (q_owner (snd kv) =? c)) (queues s1))) s1 [] (vle_refl s1)) as Hd.
   destruct (fold_left _ _ (s1, [])) as [s2 e2]. cbn [fst] in *. apply B_delconn. eapply B_vle; eauto.
 Qed.
 Lemma B_apply_err s c h r : B (fst (fst r)) -> B (fst (apply_err s c h r)).
@@ -1999,7 +2117,7 @@ Lemma B_handle_method s c h m : (fx_discard_closing fx = true -> not_closing s c
 Proof.
   intros Hnc Hb. destruct (confirm_method m) eqn:Hcm.
   - apply B_method; auto. destruct Hnc as [Hnc|Hnc]; [exact Hnc|discriminate].
-  - eapply B_vle; [|exact Hb]. apply V_handle_method. exact Hcm.
+  - eapply B_vld; [|exact Hb]. apply D_handle_method. exact Hcm.
 Qed.
 
 Lemma exchanges_ensure_chan s c h : exchanges (ensure_chan s c h) = exchanges s.
@@ -2937,22 +3055,6 @@ Qed.
 Lemma WOK_TR0 s s' : WOK s -> TR0 s s' -> WOK s'.
 Proof. intros Hw [_ T]. eapply WOK_trans; eauto. Qed.
 
-Lemma drop_tr s c h ch : Aux s -> get_chan s c h = Some ch -> TR0 s (set_chan s c h (ch <| ch_cur := None |>)).
-Proof.
-  intros Ha Hgc. set (ch2 := ch <| ch_cur := None |>).
-  split; [apply (Aux_set_chan s c h ch); auto; apply N.le_refl|].
-  intros c' h'. unfold trans_ch. cbn [acks_of flat_map app].
-  destruct (set_chan_frame s c h ch2) as (F1 & F2 & F3 & _).
-  rewrite get_chan_set_chan. pose proof (get_chan_conn _ _ _ _ Hgc) as Hcn. destruct (get_conn s c) as [cn|] eqn:Ecn; [|congruence].
-  destruct ((c' =? c) && (h' =? h)) eqn:Eb.
-  - apply andb_prop in Eb. destruct Eb as [E1 E2]. apply N.eqb_eq in E1, E2. subst c' h'. rewrite Hgc.
-    left. repeat split; [apply N.le_refl|]. intros t. cbn [ch_ctag set ch2]. rewrite bump_refl, !where_ch_nc. cbn [ch_cur set cur_part ch2].
-    rewrite (where_nc_frame s _ c h _ F1 F2 (chan_inst_set_chan s c h ch ch2 c h Hgc eq_refl)).
-    change (where_nc s c h ch2) with (where_nc s c h ch). rewrite !cnt_app, cnt_nil. lia.
-  - assert (Hsame : trans_ch s (set_chan s c h ch2) [] c' h').
-    { apply trans_ch_same; auto. rewrite get_chan_set_chan, Ecn, Eb. reflexivity. }
-    unfold trans_ch in Hsame. rewrite get_chan_set_chan, Ecn, Eb in Hsame. exact Hsame.
-Qed.
 
 Definition UW (s : state) : Prop := Units s /\ WOK s.
 
@@ -3575,6 +3677,12 @@ Proof.
   intros _ H. unfold upd_chan. destruct (get_chan s c h) as [ch|]; auto.
   destruct (set_chan_frame s c h (f ch)) as (_ & _ & _ & _ & A & B & _). eapply G_sameqe; eauto.
 Qed.
+(* the queue view does not read the channel table at all *)
+Lemma G_upd_chan_any s0 s c h f : qgrow s0 s -> qgrow s0 (upd_chan s c h f).
+Proof.
+  intros H. unfold upd_chan. destruct (get_chan s c h) as [ch|]; auto.
+  destruct (set_chan_frame s c h (f ch)) as (_ & _ & _ & _ & A & B & _). eapply G_sameqe; eauto.
+Qed.
 Lemma G_upd_msg s0 s u f : (forall m, mv (f m) = mv m) -> qgrow s0 s -> qgrow s0 (upd_msg s u f).
 Proof. intros _ H. eapply G_sameqe; [apply queues_upd_msg|apply exchanges_upd_msg|exact H]. Qed.
 Lemma G_conn_qos s0 s c cn f :
@@ -3668,7 +3776,7 @@ Qed.
 Lemma G_channel_close cfg s c h : I s -> I (channel_close cfg s c h).
 Proof.
   intros H. unfold channel_close. destruct (get_chan s c h) as [ch|] eqn:Ech; auto.
-  gkeep.
+  apply G_upd_chan_any.
   assert (H2 : I (upd_chan (fold_left (fun s cm => consumer_stop s c h (c_tag cm)) (ch_consumers ch) s) c h
                      (fun ch => ch <| ch_consumers := [] |>))).
   { gkeep. apply fold_left_preserves; auto. intros; apply G_consumer_stop; auto. }
@@ -4176,6 +4284,9 @@ Qed.
 
 (* ================================================================== *)
 (* EXACTLY ONCE: nothing is dropped.  The reverse of `mid`, for one channel: no number leaves where_nc *)
+Definition closedb (s : state) (c h : N) : bool :=
+  match get_chan s c h with Some ch => match ch_status ch with ChClosed => true | _ => false end | None => false end.
+
 Section Keep.
 Variables (c h : N).
 
@@ -4615,6 +4726,21 @@ Proof.
   intros c' h' Hn. left. apply (mid_none _ _ c' h' Hm). exact Hn.
 Qed.
 
+(* steps the view does not see and drops of the current message on channels other than (c,h) *)
+Lemma TK_vld (P : N -> N -> Prop) s s' :
+  (forall c2 h2, P c2 h2 -> (c =? c2) && (h =? h2) = false) -> Aux s -> vld P s s' -> TK s s'.
+Proof.
+  intros HP Ha H. induction H as [s1 Hv|s1 c1 h1 ch1 H IH Hp Hg|s1 s2 H IH Hv].
+  - apply TK_vle; auto.
+  - eapply TK_seq; [|exact IH|].
+    + intros c' h' Hn. right. rewrite get_chan_set_chan. destruct (get_conn s1 c1); auto.
+      destruct ((c' =? c1) && (h' =? h1)) eqn:Eb; auto. apply andb_prop in Eb. destruct Eb as [E1 E2]. apply N.eqb_eq in E1, E2. subst. congruence.
+    + split; [apply drop_tr; [exact (proj1 (proj1 IH))|exact Hg]|].
+      destruct (set_chan_frame s1 c1 h1 (ch1 <| ch_cur := None |>)) as (F1 & F2 & _).
+      apply keep_same; auto. rewrite get_chan_set_chan. destruct (get_conn s1 c1); auto. rewrite (HP c1 h1 Hp). reflexivity.
+  - eapply TK_then_mid; [exact IH|apply vle_mid; exact Hv|apply kch_vle; exact Hv].
+Qed.
+
 Lemma ensure_chan_keep s c2 h2 : keep_ch s (ensure_chan s c2 h2) [].
 Proof.
   destruct (get_chan s c h) as [ch|] eqn:Hg.
@@ -4651,20 +4777,32 @@ Proof.
   - apply keep_same; auto. rewrite get_chan_del_conn, E. reflexivity.
 Qed.
 
+Lemma conn_close_gone cfg fx s c0 h0 : get_chan (fst (conn_close cfg fx s c0)) c0 h0 = None.
+Proof.
+  unfold conn_close. destruct (get_conn s c0) as [cn|] eqn:E; [|cbn [fst]; unfold get_chan; rewrite E; reflexivity].
+  set (s1 := fold_left _ _ s). destruct (fold_left _ _ (s1, [])) as [s2 e2]. cbn [fst].
+  rewrite get_chan_del_conn, N.eqb_refl. reflexivity.
+Qed.
 Lemma conn_close_tk cfg fx s c0 : Aux s ->
   TK s (fst (conn_close cfg fx s c0)) /\
   (forall c' h', get_chan s c' h' = None -> get_chan (fst (conn_close cfg fx s c0)) c' h' = None).
 Proof.
   intros Ha. split; [|apply (conn_close_tr cfg fx s c0 Ha)].
+  destruct (c =? c0) eqn:Ec0.
+  { (* the connection of (c,h) goes: nothing is claimed about a channel that is gone *)
+    apply N.eqb_eq in Ec0. subst c0. split; [apply (conn_close_tr cfg fx s c Ha)|]. unfold keep_ch. rewrite conn_close_gone. exact I. }
   unfold conn_close. destruct (get_conn s c0) as [cn|]; [|apply TK_refl; auto].
   set (s1 := fold_left _ _ s).
-  assert (H1 : vle s s1) by (subst s1; apply fold_left_preserves; [intros; apply V_channel_close; auto|apply vle_refl]).
+  assert (H1 : vld (fun c' _ => c' = c0) s s1) by (subst s1; apply D_close_fold).
   clearbody s1.
-  pose proof (V_delete_fold s (negb (fx_delete_checks_first fx))
-                (map fst (filter (fun kv => q_excl (snd kv) && (q_owner (snd kv) =? c0)) (queues s1))) s1 [] H1) as Hd.
+  pose proof (V_delete_fold s1 (negb (fx_delete_checks_first fx))
+                (map fst (filter (fun kv => q_excl (snd kv) && (q_owner (snd kv) =? c0)) (queues s1))) s1 [] (vle_refl s1)) as Hd0.
   destruct (fold_left _ _ (s1, [])) as [s2 e2]. cbn [fst] in *.
-  apply (TK_mid_then s s2); auto; [apply vle_mid; exact Hd|apply kch_vle; exact Hd|]. intros Ha2.
-  split; [apply (del_conn_tr s2 c0 []); auto|apply del_conn_keep].
+  assert (Hd : vld (fun c' _ => c' = c0) s s2) by (eapply vld_step; eauto).
+  assert (T2 : TK s s2).
+  { apply (TK_vld (fun c' _ => c' = c0) s s2); auto. intros c2 h2 E. cbv beta in E. subst c2. rewrite Ec0. reflexivity. }
+  eapply TK_seq; [|exact T2|split; [apply (del_conn_tr s2 c0 []); [exact (proj1 (proj1 T2))|reflexivity]|apply del_conn_keep]].
+  intros c' h' Hnone. left. apply (vld_none _ _ _ c' h' Hd). exact Hnone.
 Qed.
 Lemma apply_err_tk s0 s c2 h2 r : TK s0 (fst (fst r)) -> TK s0 (fst (apply_err s c2 h2 r)).
 Proof.
@@ -4725,9 +4863,10 @@ Definition publish_ok (s : state) (c2 h2 : N) (m : meth) : Prop :=
   | _ => True
   end.
 
-Lemma handle_method_tk cfg fx s c2 h2 m : Aux s -> publish_ok s c2 h2 m -> TK s (fst (fst (handle_method cfg fx s c2 h2 m))).
+Lemma handle_method_tk cfg fx s c2 h2 m :
+  Aux s -> publish_ok s c2 h2 m -> close_method m = false -> TK s (fst (fst (handle_method cfg fx s c2 h2 m))).
 Proof.
-  intros Ha Hpo. destruct (confirm_method m) eqn:Hcm; [|apply TK_vle; auto; apply V_handle_method; auto].
+  intros Ha Hpo Hclm. destruct (confirm_method m) eqn:Hcm; [|apply TK_vle; auto; apply V_handle_method; auto].
   split; [apply handle_method_tr; auto|].
   unfold handle_method. destruct (get_chan s c2 h2) as [ch2|] eqn:Hch; [|apply keep_of_mid; auto; [apply mid_refl|apply kch_refl]].
   assert (Hst : forall chx, ch_inst chx = ch_inst ch2 -> ch_ctag chx = ch_ctag ch2 -> ch_cur chx = ch_cur ch2 -> ch_confirmq chx = ch_confirmq ch2 ->
@@ -4751,6 +4890,40 @@ Proof.
     + apply (publish_keep s c2 h2 ch2); auto. right. cbn. split; [reflexivity|symmetry; apply N.add_1_r].
     + apply (publish_keep s c2 h2 ch2); auto.
   - cbn [fst]. apply Hst; reflexivity.
+Qed.
+
+(* channel.close / close-ok: on another channel nothing of (c,h) is touched; on (c,h) itself the channel is closed afterwards *)
+Lemma channel_close_closed cfg s c2 h2 ch2 : get_chan s c2 h2 = Some ch2 -> closedb (channel_close cfg s c2 h2) c2 h2 = true.
+Proof.
+  intros Hg. rewrite channel_close_split.
+  pose proof (V_close_pre s cfg s c2 h2 (vle_refl s)) as Hv.
+  assert (Hst : exists ch3, get_chan (close_pre cfg s c2 h2) c2 h2 = Some ch3 /\ ch_status ch3 = ChClosed).
+  { unfold close_pre in *. rewrite Hg in *. cbv zeta in *.
+    match goal with |- exists _, get_chan (upd_chan ?sx _ _ _) _ _ = _ /\ _ => set (s3 := sx) in * end.
+    destruct (get_chan s3 c2 h2) as [ch3|] eqn:E3.
+    - exists (ch3 <| ch_status := ChClosed |>). split; [|reflexivity]. unfold upd_chan. rewrite E3.
+      apply get_chan_set_chan_same. pose proof (get_chan_conn _ _ _ _ E3). congruence.
+    - exfalso. unfold upd_chan in Hv. rewrite E3 in Hv. apply (vle_none _ _ c2 h2 Hv) in E3. congruence. }
+  destruct Hst as (ch3 & E3 & Hs). unfold closedb, upd_chan. rewrite E3.
+  rewrite get_chan_set_chan_same by (pose proof (get_chan_conn _ _ _ _ E3); congruence). cbn. rewrite Hs. reflexivity.
+Qed.
+Lemma close_method_tk cfg fx opened s c2 h2 m ch2 :
+  Aux s -> close_method m = true -> get_chan s c2 h2 = Some ch2 ->
+  closedb (fst (apply_err_st cfg fx opened s c2 h2 (handle_method cfg fx s c2 h2 m))) c h = false ->
+  TK s (fst (apply_err_st cfg fx opened s c2 h2 (handle_method cfg fx s c2 h2 m))).
+Proof.
+  intros Ha Hclm Hg Hcl. destruct ((c =? c2) && (h =? h2)) eqn:Eb.
+  - exfalso. apply andb_prop in Eb. destruct Eb as [E1 E2]. apply N.eqb_eq in E1, E2. subst c2 h2.
+    assert (Er : forall s' evs, fst (apply_err_st cfg fx opened s c h (ok s' evs)) = s').
+    { intros s' evs. unfold apply_err_st, ok. cbn. destruct opened; reflexivity. }
+    unfold handle_method in Hcl. rewrite Hg in Hcl. destruct m; try discriminate; rewrite Er in Hcl.
+    + rewrite (channel_close_closed cfg s c h ch2 Hg) in Hcl. discriminate.
+    + destruct (fx_closeok_releases fx); [rewrite (channel_close_closed cfg s c h ch2 Hg) in Hcl; discriminate|].
+      unfold closedb in Hcl. rewrite get_chan_set_chan_same in Hcl by (pose proof (get_chan_conn _ _ _ _ Hg); congruence).
+      cbn in Hcl. discriminate.
+  - apply apply_err_st_tk. apply (TK_vld (fun c' h' => c' = c2 /\ h' = h2)); auto.
+    + intros c' h' [-> ->]. exact Eb.
+    + apply D_handle_method. destruct m; try discriminate; reflexivity.
 Qed.
 
 (* the confirm ticker *)
@@ -4843,25 +5016,34 @@ Proof. intros H ch Hg. destruct (get_chan_ensure s c2 h2 c h ch Hg) as [X|X]; [a
 
 Lemma step_TK cfg fx s l :
   fx_clear_current fx = true -> is_confirm_tick l = false -> Units s -> live_confirm s -> not_closed s -> fresh_step s l -> drops s l = false ->
+  closedb (fst (step cfg fx s l)) c h = false ->
   TK s (fst (step cfg fx s l)).
 Proof.
-  intros Hfx Hl Hu Hlc Hnc Hfr Hnd. pose proof (un_aux _ Hu) as Ha.
+  intros Hfx Hl Hu Hlc Hnc Hfr Hnd Hcl. pose proof (un_aux _ Hu) as Ha.
   destruct l as [c2|c2 h2 m|c2 h2 mid0 size pers|c2 h2 len|c2 h2 tag|q| | | |c2 h2|c2|c2|c2 h2|c2 h2| ]; try discriminate; cbn [step].
   - (* LConnect *)
     destruct (get_conn s c2) eqn:Ec; cbn [fst]; [apply TK_refl; auto|].
     split; [apply (new_conn_tr s c2 _ []); auto|apply new_conn_keep; auto].
   - (* LMethod *)
-    destruct (get_conn s c2) as [cn0|]; [|apply TK_refl; auto].
-    destruct (negb _ && negb _)%bool; [apply conn_close_tk; auto|].
+    cbn [step] in Hcl. revert Hcl.
+    destruct (get_conn s c2) as [cn0|] eqn:Ecn0; [|intros _; apply TK_refl; auto].
+    destruct (negb _ && negb _)%bool; [intros _; apply conn_close_tk; auto|]. intros Hcl.
     apply (TK_ensure_then s c2 h2); [exact Ha|]. intros A0. set (s1 := ensure_chan s c2 h2) in *.
+    assert (Hg1 : exists ch1, get_chan s1 c2 h2 = Some ch1).
+    { subst s1. unfold ensure_chan. rewrite Ecn0. destruct (alookup N.eqb h2 (cn_chans cn0)) as [ch1|] eqn:Eh.
+      - exists ch1. unfold get_chan. rewrite Ecn0. exact Eh.
+      - exists channel0. unfold get_chan, get_conn. cbn. rewrite (alookup_aset N.eqb Neqb_spec), N.eqb_refl. cbn.
+        rewrite (alookup_aset N.eqb Neqb_spec), N.eqb_refl. reflexivity. }
+    destruct Hg1 as (ch1 & Hg1).
     assert (Hpo : publish_ok s1 c2 h2 m).
     { destruct m; try exact I. intros Eb ch Hg. cbn [drops] in Hnd. rewrite Eb in Hnd. cbn [andb] in Hnd. unfold cur_of in Hnd.
       destruct (get_chan_ensure s c2 h2 c h ch Hg) as [X|X]; [|subst; reflexivity]. rewrite X in Hnd. destruct (ch_cur ch); [discriminate|reflexivity]. }
     destruct m.
-    all: try (repeat match goal with |- context [if ?b then _ else _] => destruct b end;
+    all: try (revert Hcl; repeat match goal with |- context [if ?b then _ else _] => destruct b end; intros Hcl;
               first [ apply TK_refl; exact A0
-                    | apply apply_err_tk; first [ apply handle_method_tk; [exact A0|exact Hpo] | apply TK_refl; exact A0 ]
-                    | apply apply_err_st_tk; first [ apply handle_method_tk; [exact A0|exact Hpo] | apply TK_refl; exact A0 ] ]).
+                    | apply apply_err_tk; first [ apply handle_method_tk; [exact A0|exact Hpo|reflexivity] | apply TK_refl; exact A0 ]
+                    | apply apply_err_st_tk; first [ apply handle_method_tk; [exact A0|exact Hpo|reflexivity] | apply TK_refl; exact A0 ]
+                    | eapply close_method_tk; [exact A0|reflexivity|exact Hg1|exact Hcl] ]).
     + destruct (fx_stage fx && negb (h2 =? 0)); [apply apply_err_tk; apply TK_refl; exact A0|].
       pose proof (conn_close_tk cfg fx s1 c2 A0) as (Hc & _).
       destruct (conn_close cfg fx s1 c2) as [s2 e2]. exact Hc.
@@ -5025,8 +5207,6 @@ Proof.
 Qed.
 
 (* ---- the condition on the run: no number of the current instance of channel (c,h) was dropped ---- *)
-Definition closedb (s : state) (c h : N) : bool :=
-  match get_chan s c h with Some ch => match ch_status ch with ChClosed => true | _ => false end | None => false end.
 Definition ctag_of (s : state) (c h : N) : N := match get_chan s c h with Some ch => ch_ctag ch | None => 0 end.
 (* one step.  Within an instance: no drop point (a publish accepted while the previous message is still being assembled,
    a body frame beyond the announced size) and the channel is not closed afterwards.  When an instance begins (the channel
@@ -5049,11 +5229,12 @@ Definition GI (c h : N) (s : state) (A : list N) (ok : bool) : Prop :=
 
 Lemma step_keep cfg fx s l c h :
   fx_clear_current fx = true -> Units s -> AC s -> not_closed c h s -> fresh_step s l -> drops c h s l = false ->
+  closedb (fst (step cfg fx s l)) c h = false ->
   keep_ch c h s (fst (step cfg fx s l)) (snd (step cfg fx s l)).
 Proof.
-  intros Hfx Hu Hac Hnc Hfr Hnd. destruct (is_confirm_tick l) eqn:El.
+  intros Hfx Hu Hac Hnc Hfr Hnd Hcl. destruct (is_confirm_tick l) eqn:El.
   - destruct l; try discriminate. apply confirm_tick_keep.
-  - destruct (step_TK c h cfg fx s l Hfx El Hu (live_confirm_of c h s Hac) Hnc Hfr Hnd) as [_ K].
+  - destruct (step_TK c h cfg fx s l Hfx El Hu (live_confirm_of c h s Hac) Hnc Hfr Hnd Hcl) as [_ K].
     unfold keep_ch, covnew in *. rewrite (nb_acks c h _ (nb_step cfg fx s l El)). exact K.
 Qed.
 
@@ -5067,7 +5248,7 @@ Proof.
   - apply andb_prop in Hok. destruct Hok as [Hok Hcl]. apply andb_prop in Hok. destruct Hok as [Hok Hdr].
     apply Bool.negb_true_iff in Hcl, Hdr. destruct (Hgi Hok) as [Hnc Hcov].
     split; [intros ch Hg X; unfold closedb in Hcl; rewrite Hg, X in Hcl; discriminate|].
-    intros ch' Hg' t Ht. pose proof (step_keep cfg fx s l c h Hfx Hu Hac Hnc Hfr Hdr) as K. fold s' evs in K.
+    intros ch' Hg' t Ht. pose proof (step_keep cfg fx s l c h Hfx Hu Hac Hnc Hfr Hdr Hcl) as K. fold s' evs in K.
     unfold keep_ch in K. rewrite Hg' in K. unfold chan_inst in Ei. rewrite Hg' in Ei.
     destruct (get_chan s c h) as [ch|] eqn:Hg; [|discriminate]. cbn [oN_eqb] in Ei. rewrite (N.eqb_sym (ch_inst ch') (ch_inst ch)), Ei in K.
     destruct K as [Ka Kb]. rewrite <- app_assoc. destruct (N.le_gt_cases t (ch_ctag ch)) as [Hle|Hgt].
